@@ -134,3 +134,24 @@ Definition dp_okL (d : pydp) : bool :=
   (N.of_nat (length (d_name d)) <? 2147483648) && num_okL (d_ts d) && num_okL (d_val d).
 Definition payload_rL (frepr : N -> bytes) (pd : N * list pydp) : bytes :=
   if (fst pd =? 2) || (fst pd =? 3) then py_dumpsL (fst pd) (snd pd) else payload_r frepr pd.
+
+(* ---- protocol 4 with integers beyond int32 (LONG1 as in protocols 2 and 3) ---- *)
+Definition enc_item4L (d : pydp) : bytes :=
+  enc_str4 (d_name d) ++ enc_numL (d_ts d) ++ enc_numL (d_val d) ++ [134; 148; 134; 148].
+Fixpoint enc_items4L (ds : list pydp) : bytes :=
+  match ds with [] => [] | d :: r => enc_item4L d ++ enc_items4L r end.
+Definition body4L (ds : list pydp) : bytes :=
+  [93; 148] ++
+  match ds with
+  | [] => []
+  | [d] => enc_item4L d ++ [97]
+  | _ => [40] ++ enc_items4L ds ++ [101]
+  end ++ [46].
+Definition py_dumps4L (ds : list pydp) : bytes :=
+  let b := body4L ds in
+  [128; 4] ++ (if N.of_nat (length b) <? 4 then b else 149 :: le_bytes 8 (N.of_nat (length b)) ++ b).
+(* protocols 2, 3 and 4 *)
+Definition payloadL (pd : N * list pydp) : bytes :=
+  if fst pd =? 4 then py_dumps4L (snd pd) else py_dumpsL (fst pd) (snd pd).
+Definition payload_rL4 (frepr : N -> bytes) (pd : N * list pydp) : bytes :=
+  if (fst pd =? 2) || (fst pd =? 3) || (fst pd =? 4) then payloadL pd else payload_r frepr pd.
